@@ -325,9 +325,17 @@ class Reporter:
 
     def match_known(self, case):
         """case: dict with a 'key' (canonical identification of the failing input/site)"""
+        import findings_pred
         for f in self.findings:
+            if f.get("predicate"):
+                try:
+                    if findings_pred.PREDICATES[f["predicate"]](case):
+                        return f
+                except Exception as ex:   # a predicate that cannot judge the case does not match it
+                    log(f"[findings] predicate {f['predicate']} failed on a case: {ex}")
+                continue
             m = f["match"]
-            if all(canon(case.get(k)) == canon(v) for k, v in m.items()):
+            if m and all(canon(case.get(k)) == canon(v) for k, v in m.items()):
                 return f
         return None
 
